@@ -287,6 +287,9 @@ def run(tier, seed, prefix='C18', want=('TF', 'SS'), pack=None):
                           dropped='nothing: define() is executed; its output strings are the verified text')
     pack.vacuity['canaries'] += n_can
     if own:
+        # how an expression string given as a block input becomes one operand of the block's equations
+        from contracts.packutil import run_contracts
+        run_contracts(pack, [(dummy_value('C18'), None, replay_dummy_value)])
         return pack.finish()
     return pack
 
@@ -366,3 +369,38 @@ def native_confirm(name, spec, r):
     except Exception as e:  # pragma: no cover
         return {'confirmed': False, 'error': repr(e)}
     return {'confirmed': False}
+
+
+def dummy_value(pid):
+    """DummyValue.__init__: an expression string handed to a block is stored, as the operand name the block pastes into its equations,
+    enclosed in one pair of parentheses -- whatever the string looks like -- so that it behaves as ONE operand; numbers are kept."""
+    import z3
+    from pyvc.symex import Contract
+    from pyvc.symval import TObj, TStr, Opaque
+
+    def post(old, new, res):
+        nm = new.st.load('self.name')
+        v = old.st.env['value']
+        f = z3.Function('fstr:({})', TStr.sort, TStr.sort)
+        return z3.BoolVal(isinstance(nm, Opaque)) if not isinstance(nm, Opaque) else nm.term == f(v.term)
+    c = Contract('andes/core/common.py', 'DummyValue.__init__', pid=pid, params={'self': TObj(), 'value': TStr()}, schema={},
+                 calls={'isinstance:str': lambda ex, st, a, k, n: True},
+                 ensures=[('name=(<value>):the-whole-expression-in-one-pair-of-parentheses', post)], modifies=['self.*'])
+    return c
+
+
+def replay_dummy_value(obligation=None, model=None, meta=None):
+    """native: for expression strings of several shapes, 3 * <name> - 1 evaluates to 3 * (<expression>) - 1"""
+    from andes.core.common import DummyValue
+    env = dict(v1=1.7, b1=0.2, v2=0.9, b2=-0.4, a=2.0, c=0.5)
+    shapes = ['v1', 'v1 - b1', '(v1 - b1) - (v2 - b2)', '(a + c)/(v1 + b1)', ' (v1 - b1) * (v2) ', '-(v1) + (b1)', '((v1 - b1))', '(a) - c']
+    n = 0
+    for s in shapes:
+        n += 1
+        nm = DummyValue(s).name
+        got = eval('3 * %s - 1' % nm, {}, dict(env))
+        want = 3 * eval(s.strip(), {}, dict(env)) - 1
+        if abs(got - want) > 1e-12:
+            return {'confirmed': True, 'inputs': {'expression': s, 'values': env}, 'observed': 'operand name %r: 3 * name - 1 = %r, 3 * (expression) - 1 = %r' % (nm, got, want),
+                    'native_cmd': 'DummyValue(expression).name pasted into 3 * <name> - 1'}
+    return {'confirmed': False, 'tried': n}
